@@ -132,6 +132,86 @@ fn sections_all(tried: &mut u64) -> Option<String> {
     None
 }
 
+/// bounded round trip of untyped values: every leaf class, then up to two levels of compound wrappers around it
+mod value_rt {
+    use serde_amqp::{from_slice, to_vec, Value, primitives::*, described::Described, descriptor::Descriptor};
+    fn leaves() -> Vec<Value> {
+        vec![Value::Null, Value::Bool(true), Value::Bool(false), Value::Ubyte(1), Value::Ushort(2), Value::Uint(0), Value::Uint(3), Value::Uint(300), Value::Ulong(0), Value::Ulong(5), Value::Ulong(500),
+            Value::Byte(-1), Value::Short(-2), Value::Int(-3), Value::Int(-300), Value::Long(-4), Value::Long(-400), Value::Float(1.5f32.into()), Value::Double(2.5f64.into()),
+            Value::Decimal32(Dec32::from([1, 2, 3, 4])), Value::Decimal64(Dec64::from([1, 2, 3, 4, 5, 6, 7, 8])), Value::Decimal128(Dec128::from([9u8; 16])),
+            Value::Char('x'), Value::Char('\u{1F600}'), Value::Timestamp(Timestamp::from(12345)), Value::Uuid(Uuid::from([7u8; 16])),
+            Value::Binary(vec![1u8, 2, 3].into()), Value::Binary(vec![0u8; 255].into()), Value::Binary(vec![0u8; 256].into()),
+            Value::String("h\u{e9}llo".into()), Value::String("x".repeat(255)), Value::String("\u{e9}".repeat(128)), Value::Symbol(Symbol::from("sym")), Value::Symbol(Symbol::from("s".repeat(256))),
+            Value::List(vec![]), Value::Map(Default::default()), Value::Array(Array::from(vec![]))]
+    }
+    fn is_described(v: &Value) -> bool { matches!(v, Value::Described(_)) }
+    /// the compound wrappers
+    fn wrap(x: &Value) -> Vec<Value> {
+        let mut out = vec![];
+        out.push(Value::Array(Array::from(vec![x.clone()])));
+        out.push(Value::Array(Array::from(vec![x.clone(), x.clone()])));
+        out.push(Value::Array(Array::from(vec![x.clone(); 3])));
+        out.push(Value::Array(Array::from(vec![x.clone(); 300])));
+        out.push(Value::List(vec![x.clone()]));
+        out.push(Value::List(vec![x.clone(), Value::Int(7), x.clone()]));
+        let mut m = Value::Map(Default::default());
+        if let Value::Map(mm) = &mut m { mm.insert(x.clone(), x.clone()); mm.insert(Value::Symbol(Symbol::from("k")), x.clone()); }
+        out.push(m);
+        out.push(Value::Described(Box::new(Described { descriptor: Descriptor::Code(0x13), value: x.clone() })));
+        out.push(Value::Described(Box::new(Described { descriptor: Descriptor::Name(Symbol::from("a:b")), value: x.clone() })));
+        out
+    }
+    /// input classes kept apart (known findings): 1 = an array of described values occurs in it (D18), 2 = an array of two or more zero-width elements (null, empty list) occurs in it (D19)
+    fn class(v: &Value) -> u8 {
+        match v {
+            Value::Array(a) => {
+                let mut c = 0;
+                if a.0.first().map(is_described).unwrap_or(false) { c |= 1; }
+                if a.0.len() >= 2 && (matches!(a.0[0], Value::Null) || matches!(&a.0[0], Value::List(l) if l.is_empty())) { c |= 2; }
+                a.0.first().map(class).unwrap_or(0) | c
+            }
+            Value::List(l) => l.iter().fold(0, |c, x| c | class(x)),
+            Value::Map(m) => m.iter().fold(0, |c, (k, x)| c | class(k) | class(x)),
+            Value::Described(d) => class(&d.value),
+            _ => 0,
+        }
+    }
+    fn rt(v: &Value) -> Option<String> {
+        let show = |v: &Value| -> String { let s = format!("{:?}", v); s.chars().take(160).collect() };
+        let b = match std::panic::catch_unwind(|| to_vec(v)) {
+            Err(_) => return Some(format!("serde_amqp::to_vec({}) PANICS", show(v))),
+            Ok(Err(e)) => return Some(format!("serde_amqp::to_vec({}) fails: {:?}", show(v), e)),
+            Ok(Ok(b)) => b,
+        };
+        let hx: String = b.iter().take(48).map(|x| format!("{:02x}", x)).collect::<Vec<_>>().join(" ");
+        match std::panic::catch_unwind(|| from_slice::<Value>(&b)) {
+            Err(_) => Some(format!("serde_amqp round trip: {} is encoded as [{}{}] ({} bytes), on which from_slice PANICS", show(v), hx, if b.len() > 48 { " .." } else { "" }, b.len())),
+            Ok(Err(e)) => Some(format!("serde_amqp round trip: {} is encoded as [{}{}] ({} bytes), which does not decode: {:?}", show(v), hx, if b.len() > 48 { " .." } else { "" }, b.len(), e)),
+            Ok(Ok(d)) if d != *v => Some(format!("serde_amqp round trip: {} is encoded as [{}{}] ({} bytes), which decodes to a different value {}", show(v), hx, if b.len() > 48 { " .." } else { "" }, b.len(), show(&d))),
+            Ok(Ok(_)) => None,
+        }
+    }
+    /// every leaf, every wrapper of a leaf, every wrapper of those; `want` selects the input class (0: everything outside the two known classes)
+    pub fn all(want: u8, tried: &mut u64) -> Option<String> {
+        std::panic::set_hook(Box::new(|_| {}));
+        let l0 = leaves();
+        let mut l1 = vec![];
+        for x in &l0 { l1.extend(wrap(x)); }
+        let all_fail = std::env::var("VERIF_RT_ALL").is_ok();
+        let mut first = None;
+        let mut one = |v: &Value, tried: &mut u64| -> bool {
+            let c = class(v);
+            if (want == 0 && c != 0) || (want != 0 && c & want == 0) { return false; }
+            *tried += 1;
+            if let Some(m) = rt(v) { if all_fail { println!("FAIL {}", m); } if first.is_none() { first = Some(m); } return !all_fail; }
+            false
+        };
+        for v in l0.iter().chain(l1.iter()) { if one(v, tried) { return first; } }
+        for x in &l1 { for v in wrap(x) { if one(&v, tried) { return first; } } }
+        first
+    }
+}
+
 fn main() {
     let args: Vec<String> = std::env::args().collect();
     if args.len() < 2 { eprintln!("usage: verif-falsify <family> [seed]"); std::process::exit(2); }
@@ -171,6 +251,9 @@ fn main() {
         "C02.cci-session" => { found = cci_all(false, &mut tried); }
         "C02.cci-receiver" => { found = cci_all(true, &mut tried); }
         "C10.sections" => { found = sections_all(&mut tried); }
+        "C03.value-rt" => { found = value_rt::all(0, &mut tried); }
+        "C03.array-of-described" => { found = value_rt::all(1, &mut tried); }
+        "C03.array-of-zero-width" => { found = value_rt::all(2, &mut tried); }
         _ => { println!("FALSIFY unknown-family"); std::process::exit(2); }
     }
     match found {
